@@ -106,3 +106,36 @@ Proof.
     change seq_url_format with "%s/replication/%s/%03d/%03d/%03d"%string.
     rewrite planet_layout by exact Hn. reflexivity.
 Qed.
+
+(* ---- the decoders' data: keys, separators, line numbers, number parsers, time formats ---- *)
+From Verif Require Import C19.Decode C19.DecodeGen C19.ProofsDecode.
+
+Lemma gen_interval_keys : keys_of interval_keys = Some planet_keys.
+Proof. reflexivity. Qed.
+
+Lemma gen_interval_seps : sep_at interval_seps 0 = Some nlc /\ sep_at interval_seps 1 = Some "="%char.
+Proof. split; reflexivity. Qed.
+
+Lemma gen_changeset_shape :
+  sep_at changeset_seps 0 = Some nlc /\ sep_at changeset_seps 1 = Some ":"%char /\
+  sep_at changeset_seps 2 = Some ":"%char /\ sep_at changeset_join_seps 0 = Some ":"%char /\
+  changeset_line_indices = [1; 2].
+Proof. repeat split; reflexivity. Qed.
+
+(* strconv.Atoi for the three integer fields of the interval state, strconv.ParseUint for the
+   changeset sequence: what the model's atoi / parse_uint stand for *)
+Lemma gen_parsers :
+  interval_parsers = ["strconv.Atoi"; "strconv.Atoi"; "strconv.Atoi"]%string /\
+  changeset_parsers = ["strconv.ParseUint"]%string.
+Proof. split; reflexivity. Qed.
+
+Lemma gen_time_formats_planet : time_formats = planet_formats.
+Proof. reflexivity. Qed.
+
+Lemma decode_interval_gen_eq : forall data,
+  decode_interval_gen data = Some (decode_interval planet_keys planet_formats nlc "="%char data).
+Proof. reflexivity. Qed.
+
+Lemma decode_changeset_gen_eq : forall data,
+  decode_changeset_gen data = Some (decode_changeset planet_formats nlc ":"%char 1 2 data).
+Proof. reflexivity. Qed.
